@@ -1084,6 +1084,12 @@ var fn1Catalogue = []fnEntry{
 		}
 		return x
 	}},
+	{"s.nvl", "se", func(x *string) *string {
+		if x == nil {
+			return strp("N/A")
+		}
+		return x
+	}},
 }
 
 var fn2Catalogue = []fnEntry{
@@ -1421,8 +1427,8 @@ var evalOps = map[string][][]string{ // type -> {unary ops, binary ops}
 	"i": {{"abs", "str", "bool", "myinc"}, {"+", "-", "*", "mysub"}},
 	"f": {{"abs", "myneg"}, {"+", "-", "*"}},
 	"b": {{"!", "str", "int"}, {"&", "|", "!=", "nand"}},
-	"s": {{"str", "len", "myaddx"}, {"+"}},
-	"e": {{"str", "len", "myaddx"}, {"+"}},
+	"s": {{"str", "len", "myaddx", "mynvl"}, {"+"}},
+	"e": {{"str", "len", "myaddx", "mynvl"}, {"+"}},
 }
 
 // genExpr builds an expression. It returns the expression argument and its tokens.
@@ -1465,6 +1471,10 @@ func (g *gen) genExpr(f *hframe, depth int, typ string, bad bool) exprT {
 		case 0:
 			return exprT{types.ColumnName("nosuch"), []string{"C", tx.HexS("nosuch")}}
 		case 1:
+			if r.Bool() {
+				// a raw list expression with more than three elements is malformed (only Expr folds n-ary operands)
+				return exprT{[]interface{}{"+", 1, 2, 3}, []string{"BADARG"}}
+			}
 			return exprT{struct{}{}, []string{"BADARG"}}
 		default:
 			return exprT{qframe.Expr("nosuchfn", types.ColumnName(g.colNameMaybeBad(f, false))),
@@ -1477,8 +1487,11 @@ func (g *gen) genExpr(f *hframe, depth int, typ string, bad bool) exprT {
 	ops := evalOps[typ]
 	if r.P(1, 3) {
 		// unary producing typ: restrict to ops that keep the type
-		keep := map[string][]string{"i": {"abs", "myinc"}, "f": {"abs", "myneg"}, "b": {"!"}, "s": {"str", "myaddx"}, "e": {"str", "myaddx"}}[typ]
+		keep := map[string][]string{"i": {"abs", "myinc"}, "f": {"abs", "myneg"}, "b": {"!"}, "s": {"str", "myaddx", "mynvl"}, "e": {"str", "myaddx", "mynvl"}}[typ]
 		op := keep[r.Intn(len(keep))]
+		if (typ == "s" || typ == "e") && r.P(1, 3) {
+			op = "mynvl" // answers null with a value: the function must be applied to null operands as well
+		}
 		a := g.genExpr(f, depth-1, typ, bad)
 		return exprT{qframe.Expr(op, a.e), append([]string{"X", tx.HexS(op), "1"}, a.toks...)}
 	}
@@ -1534,6 +1547,13 @@ func myCtx() *eval.Context {
 			return nil
 		}
 		return strp(*x + "x")
+	})
+	// a function that answers null with a value
+	_ = ctx.SetFunc("mynvl", func(x *string) *string {
+		if x == nil {
+			return strp("N/A")
+		}
+		return x
 	})
 	return ctx
 }
@@ -1734,6 +1754,9 @@ func (g *gen) genOp() {
 				a = -1
 			case 1:
 				b = src.n + 1 + r.Intn(3)
+				if r.P(1, 3) {
+					a = b // an empty range beyond the end is still out of bounds
+				}
 			default:
 				a, b = b+1, a
 			}
